@@ -403,7 +403,7 @@ def prebuild(ctx):
     from vlib import c14_clients
     text, _ = c14_clients.gen_coq()
     (COQ / "C14" / "GenRangeClients.v").write_text(text)
-    ctx.coq_build_cached(["C14/GenRangeClients.v", "C14/RangeClients.v", "C14/PropsClients.v"], deps=RANGE_PRE, timeout=900)
+    ctx.coq_build_cached(["C14/GenRangeClients.v", "C14/RangeClients.v", "C14/RangeRefine.v", "C14/PropsClients.v"], deps=RANGE_PRE, timeout=900)
 
 
 # ---------------------------------------------------------------- range-based check removal (clients of the range kernel)
@@ -484,6 +484,35 @@ def part_clients(ctx):
                                                           f"range_cmp_kernel({lit}, {ra}, is_gt={is_gt}, signed={signed}, lit_is_first={lf}) = {k}",
                                                           {"a": str(a), "actual": str(res)}, f"clients:range_cmp:{op}:{lit}:{ra}:{lf}")
                                     break
+            # branch refinement: a member that takes the branch must stay in the refined range
+            if ra[0] != "BOT" and "rf" not in hit:
+                for lit in (0, 1, 5, 10, 100, 255, 2**255 - 1, 2**255, 2**256 - 1, -1, -128):
+                    for opc in ("lt", "gt", "slt", "sgt"):
+                        for side, fn in (("left", mod.refine_compare_left), ("right", mod.refine_compare_right)):
+                            for tk in (True, False):
+                                try:
+                                    r2 = fn(mod._R(va), lit, opc, tk)
+                                except Exception as e:
+                                    r2 = None
+                                n += 1
+                                if r2 is None or "rf" in hit:
+                                    continue
+                                for a in mem[i]:
+                                    c = ev(opc, a, lit) if side == "left" else ev(opc, lit, a)
+                                    if (c == 1) == tk and not _in_range(a, r2):
+                                        hit.add("rf"); report("branch refinement excludes a value that takes the branch",
+                                                              f"refine_compare_{side}({ra}, {lit}, {opc!r}, is_true={tk}) = {r2!r}",
+                                                              {"a": str(a)}, f"clients:refine:{opc}:{side}:{tk}:{lit}:{ra}")
+                                        break
+                try:
+                    r2 = mod.refine_iszero_false(mod._R(va))
+                except Exception:
+                    r2 = None
+                if r2 is not None:
+                    for a in mem[i]:
+                        if a != 0 and not _in_range(a, r2) and "rz" not in hit:
+                            hit.add("rz"); report("iszero refinement (false branch) excludes a non-zero value",
+                                                  f"refine_iszero_false({ra}) = {r2!r}", {"a": str(a)}, f"clients:refine_iszero:{ra}")
             for j, (rb, vb) in enumerate(pr):
                 for nm, fn, chk in (("add", mod.add_elim_cond, lambda a, b: ev("iszero", ev("lt", ev("add", a, b), a))),
                                     ("sub", mod.sub_elim_cond, lambda a, b: ev("iszero", ev("gt", ev("sub", a, b), a)))):
@@ -506,7 +535,7 @@ def part_clients(ctx):
         if not found:
             ctx.violation("translator-rejected", "cannot slice/translate the range-based decision code: " + gen_err, {"error": gen_err})
         return n
-    b = ctx.coq_build_cached(["C14/GenRangeClients.v", "C14/RangeClients.v", "C14/PropsClients.v"],
+    b = ctx.coq_build_cached(["C14/GenRangeClients.v", "C14/RangeClients.v", "C14/RangeRefine.v", "C14/PropsClients.v"],
                              deps=RANGE_PRE, timeout=900)
     if (COQ / "C14" / "GenRangeClients.vo").exists() and (b["ok"] or "GenRangeClients" not in b.get("file", "")):
         # translator validation: model vs CPython on the grid (rolling hash, as for the evaluators)
@@ -523,7 +552,14 @@ def part_clients(ctx):
                  "[hashl (flat_map (fun r => flat_map (fun l => flat_map (fun g => flat_map (fun s => map (fun f => "
                  "eo (range_cmp_kernel l r g s f)) [true; false]) [true; false]) [true; false]) "
                  + coqrun.zlist(lits) + ") RS)]"]
-        outs = coqrun.eval_zlists(imports, exprs, "c14clients", shard=5)
+        imports += ("\nDefinition er (r : res (option vrange)) : list Z := match r with Ok (Some TOP) => [0;0;0] | Ok (Some BOT) => [1;0;0] "
+                    "| Ok (Some (IV l h)) => [2;l;h] | Ok None => [5;0;0] | Err _ => [9;0;0] end.")
+        rlits = [0, 5, 255, 2**255 - 1, 2**255, 2**256 - 1, -1, -128]
+        exprs.append("[hashl (flat_map (fun r => flat_map (fun l => flat_map (fun o => flat_map (fun t => "
+                     "er (refine_compare_left r l o t) ++ er (refine_compare_right r l o t)) [true; false]) "
+                     '["lt"%string; "gt"%string; "slt"%string; "sgt"%string]) ' + coqrun.zlist(rlits) + ") RS)]")
+        exprs.append("[hashl (flat_map (fun r => er (refine_iszero_false r)) RS)]")
+        outs = coqrun.eval_zlists(imports, exprs, "c14clients", shard=7)
         pr = [_vr_py(r) for r in ranges]
 
         def sb(f):
@@ -546,7 +582,24 @@ def part_clients(ctx):
             _hash([so(lambda: mod.range_cmp_kernel(l, r, g, s_, f)) for r in pr for l in lits for g in (True, False)
                    for s_ in (True, False) for f in (True, False)]),
         ]
-        names = ["add_elim_cond", "sub_elim_cond", "_range_excludes_zero", "signextend_noop_cond", "range_cmp_kernel"]
+        def sr(f):
+            try:
+                r = f()
+            except Exception:
+                return [9, 0, 0]
+            if r is None:
+                return [5, 0, 0]
+            return _enc_py(lambda: r)
+        seq = []
+        for r in pr:
+            for l in rlits:
+                for o in ("lt", "gt", "slt", "sgt"):
+                    for t_ in (True, False):
+                        seq += sr(lambda: mod.refine_compare_left(mod._R(r), l, o, t_)) + sr(lambda: mod.refine_compare_right(mod._R(r), l, o, t_))
+        py.append(_hash(seq))
+        py.append(_hash([x for r in pr for x in sr(lambda: mod.refine_iszero_false(mod._R(r)))]))
+        names = ["add_elim_cond", "sub_elim_cond", "_range_excludes_zero", "signextend_noop_cond", "range_cmp_kernel",
+                 "refine_compare_left/right", "refine_iszero_false"]
         for nm, o, p_ in zip(names, outs, py):
             if o[0] != p_:
                 ctx.violation("correspondence-broken", f"py2coq model of sliced decision code {nm} disagrees with CPython", {"fn": nm})
